@@ -305,10 +305,10 @@ def replay_setup(vals, oid):
          clause="a file with the input's sample count ... append mode concatenates runs; RMS quality files one entry per batch: a run that does not append starts its output, RMS and timestamp files empty "
                 "(nothing of an earlier run in the same folder survives), an appending run starts each of them at its current end and truncates none")
 def h_setup(H):
-    for append in (False, True):
-        S = H.session(f"setup.append{append}")
+    for append, rms in ((False, True), (True, True), (False, False)):
+        S = H.session(f"setup.append{append}" + ("" if rms else ".no_rms"))
 
-        def body(it, append=append):
+        def body(it, append=append, rms=rms):
             node, inner, filename, consts = _nested()
             it.session.note_function(FN)
             fs_ = fsmodel.GhostFS()
@@ -328,16 +328,27 @@ def h_setup(H):
             it.session.contracts[np.frombuffer] = lambda it_, a, k: A.fresh_array("time_data", "float32", (z3.Int("n_times"),))
             it.ctx.assume(z3.Int("n_times") >= 1)
             env = I.Env(None, FN.__globals__, qualname="decompress_destripe_cbin", filename=filename)
-            env.vars.update(dict(compute_rms=True, append=append, output_file=out_path, sr=SObj(spikeglx.Reader, ns=SV(ns))))
+            env.vars.update(dict(compute_rms=rms, append=append, output_file=out_path, sr=SObj(spikeglx.Reader, ns=SV(ns))))
             it.ctx.func = env.qualname
             src = [ast.unparse(st) for st in node.body]
             i_rms = [i for i, t in enumerate(src) if t.startswith("if compute_rms:") and "ap_rms_file" in t and "rms_nbytes" in t]
             i_app = [i for i, t in enumerate(src) if t.startswith("if append:") and "offset" in t]
             if len(i_rms) != 1 or len(i_app) != 1:
                 raise I.Unsupported("cannot identify the statements that create the quality files / size the output in decompress_destripe_cbin()")
+            # the saturation file the batches write their flags to: created by top-level statements of the set-up part (inside or before the rms block)
+            for i_, t_ in enumerate(src):
+                if i_ < i_rms[0] and "file_saturation" in t_ and not t_.startswith(("if ", "def ")):
+                    it.exec_stmt(node.body[i_], env)
             it.exec_stmt(node.body[i_rms[0]], env)
             it.exec_stmt(node.body[i_app[0]], env)
-            tag = f"append{append}"
+            tag = f"append{append}" + ("" if rms else ".no_rms")
+            if not rms:
+                it.ctx.oblige(f"setup.saturation_file_exists_without_rms.{tag}", z3.BoolVal("file_saturation" in env.vars and len(saved) == 1), "post",
+                              "compute_rms=False: the per-sample saturation file every batch writes to is still created (the workers open it unconditionally)")
+                trunc = {op[1] for op in fs_.log if op[0] == "open_w"}
+                it.ctx.oblige(f"setup.fresh_run_starts_empty.{tag}", z3.BoolVal(fsmodel.GhostPath(fs_, ("out",), "destriped.bin").key in trunc), "post")
+                it.ctx.oblige(f"setup.saturation_file_one_entry_per_sample.{tag}", z3.BoolVal(len(saved) == 1 and isinstance(saved[0][1], SArr) and saved[0][1].dtype.kind == "b") and (A.T(saved[0][1].shape[0]) == ns if len(saved) == 1 and isinstance(saved[0][1], SArr) else z3.BoolVal(False)), "post", assume=False)
+                return
             trunc = {op[1] for op in fs_.log if op[0] == "open_w"}
             keys = {nm: fsmodel.GhostPath(fs_, ("out",), nm).key for nm in sizes}
             g = lambda nm: term(env.vars[nm]) if isinstance(env.vars.get(nm), (SV, int)) else None      # noqa
@@ -519,6 +530,23 @@ def b_native(B):
                         np.load(os.path.join(od, "_iblqc_ephysTimeRmsAP.timestamps.npy")), np.load(os.path.join(od, "_iblqc_ephysSaturation.samples.npy")))
         same = all(a_.shape == b_.shape and np.array_equal(a_, b_) for a_, b_ in zip(res["fresh"], res["reused"]))
         B.case("output_folder_used_again", bool(same), detail={"rms_rows": [int(res[k][1].shape[0]) for k in ("fresh", "reused")], "timestamps": [int(res[k][2].shape[0]) for k in ("fresh", "reused")]})
+    finally:
+        shutil.rmtree(d, ignore_errors=True)
+    # whitening given as an amplitude scalar (documented) == the same amplitude times the identity matrix, byte for byte
+    import pyfftw  # noqa
+    import joblib
+    d = tempfile.mkdtemp(prefix="c06_")
+    try:
+        ap, x = _mk_rec(d, 12000, rng, nbatch=8192)
+        outs = []
+        for k_, wr in enumerate((2.0, np.eye(384) * 2.0)):
+            od = os.path.join(d, f"wrot{k_}")
+            os.makedirs(od)
+            with joblib.parallel_backend("threading"):
+                V.decompress_destripe_cbin(ap, output_file=os.path.join(od, "out.bin"), nbatch=8192, nprocesses=1, reject_channels=False, compute_rms=False, wrot=wr)
+            outs.append(np.fromfile(os.path.join(od, "out.bin"), dtype=np.int16))
+        okw = outs[0].shape == outs[1].shape == (12000 * 385,) and np.array_equal(outs[0], outs[1])
+        B.case("scalar_whitening_equals_scaled_identity", bool(okw), detail={"sizes": [int(o.size) for o in outs], "differing": int(np.sum(outs[0] != outs[1])) if outs[0].shape == outs[1].shape else -1}, inputs={"kind": "wrot_scalar"})
     finally:
         shutil.rmtree(d, ignore_errors=True)
     badf = native_destripe(rng, 20000, 8192, (1, 3) if B.tier == "quick" else (1, 2, 3, 5), False, out_dtype=np.float32)
